@@ -1,6 +1,7 @@
 /-
   C11  Refresh keeps the session current or ends it.
 -/
+import AuthProofs.StateInventory
 import AuthProofs.Ladder
 import AuthProofs.CodeEquivOidc
 namespace AuthProps.C11
@@ -61,6 +62,9 @@ theorem code_response_validators (env : Go.Env) (c : Pb.OIDCConfig) (r : Pb.IdpT
 example : Code.isValidIDPRefreshTokenResponse {} { TokenType := B "bEARER", ExpiresIn := 0 } = .ok true := by decide
 example : Code.isValidIDPRefreshTokenResponse {} { TokenType := B "", ExpiresIn := 5 } = .ok false := by decide
 
+/-- NO HIDDEN STATE: the model treats a check as a function of (configuration, request, store answers, clock, IdP and key-source answers, entropy); that is a faithful reading of the code only if nothing else survives from one check to the next. Regenerated on every run: every package-level variable and struct field of internal/server, internal/authz, internal/http, internal/oidc is the classified expectation, and handlers, filter, HTTP helpers and the Redis store own no mutable state (no verdict cache, handler cache, object pool, single-flight group or per-process copy of session data). -/
+theorem no_hidden_state : CheckPathInventory := check_path_inventory
+
 end AuthProps.C11
 
 #print axioms AuthProps.C11.refresh_request
@@ -71,3 +75,4 @@ end AuthProps.C11
 #print axioms AuthProps.C11.refresh_failure_removes_session
 #print axioms AuthProps.C11.refresh_branch_outcomes
 #print axioms AuthProps.C11.code_response_validators
+#print axioms AuthProps.C11.no_hidden_state
